@@ -20,8 +20,8 @@ func CheckReportWellFormed(text string, nodeIDs map[string]bool, validations map
 	if err := dec.Decode(&top); err != nil {
 		return []string{"not-json: " + err.Error()}
 	}
-	if dec.More() {
-		add("not-json", "trailing data after the JSON value")
+	if rest := strings.TrimSpace(text[dec.InputOffset():]); rest != "" {
+		add("not-json", "trailing data after the JSON value (%d bytes)", len(rest))
 	}
 	arr, ok := top.([]any)
 	if !ok || len(arr) != 1 {
